@@ -118,6 +118,16 @@ void mutate_set(S &mine, unsigned r, unsigned maxlen) {
   if (r % 29 == 0) mine.clear();
 }
 
+// A comparator with a const and a non-const call operator, the latter keeping (unsynchronised) statistics: the standard containers call the
+// const one from their const members, so concurrent const lookups on one set never write to the comparator stored inside it.
+template <class T>
+struct DualLess {
+  long mutable_calls;
+  DualLess() : mutable_calls(0) {}
+  bool operator()(const T &a, const T &b) const { return a < b; }
+  bool operator()(const T &a, const T &b) { ++mutable_calls; return a < b; }
+};
+
 // positive control: a container-like object with an unsynchronised mutable cache
 struct RacyCache {
   std::vector<int> v;
@@ -228,13 +238,20 @@ long flat_case(int fill, unsigned maxlen, int nthreads, int iters, unsigned seed
 static const char *kCases[] = {
     "vector<int>/empty", "vector<int>/heap", "vector<TRs>/heap", "SmallVector<TCs,4>/inline", "SmallVector<TCs,4>/heap", "SmallVector<TRs,3>/inline-full",
     "FixedCapacityVector<int,8>/partial", "FixedCapacityVector<TRs,8>/full", "FlatSet<int>/heap", "FlatSet<TCs,SmallVector<4>>/inline", "FlatSet<TRs>/empty",
-    "SmallSet<int,4>/inline", "SmallSet<int,4>/large", "SmallSet<TCs,4,FlatSet>/inline", "SmallSet<TCs,4,FlatSet>/large", "SmallSet<TRs,3>/empty", "FlatSet<int>/200", "vector<TCs>/500", "SmallSet<int,4>/large-150", "FlatSet<TRs,SmallVector<8>>/100"};
-static const int kNCases = 20;
+    "SmallSet<int,4>/inline", "SmallSet<int,4>/large", "SmallSet<TCs,4,FlatSet>/inline", "SmallSet<TCs,4,FlatSet>/large", "SmallSet<TRs,3>/empty", "FlatSet<int>/200", "vector<TCs>/500", "SmallSet<int,4>/large-150", "FlatSet<TRs,SmallVector<8>>/100",
+    "FlatSet<int,DualLess>/heap", "FlatSet<int,DualLess>/200", "SmallSet<int,4,DualLess>/large", "SmallSet<TCs,4,DualLess,FlatSet>/inline", "SmallSet<TCs,4,DualLess,FlatSet>/large"};
+static const int kNCases = 25;
 
 long run_case(int c, int nthreads, int iters, unsigned seed, long &ov) {
   typedef amc::FlatSet<TCs, std::less<TCs>, amc::allocator<TCs>, amc::SmallVector<TCs, 4> > FSsv;
   typedef amc::SmallSet<TCs, 4, std::less<TCs>, amc::allocator<TCs>, amc::FlatSet<TCs, std::less<TCs>, amc::allocator<TCs> > > SSf;
+  typedef amc::SmallSet<TCs, 4, DualLess<TCs>, amc::allocator<TCs>, amc::FlatSet<TCs, DualLess<TCs>, amc::allocator<TCs> > > SSfd;
   switch (c) {
+    case 20: return flat_case<amc::FlatSet<int, DualLess<int> > >(15, 30, nthreads, iters, seed, ov);
+    case 21: return flat_case<amc::FlatSet<int, DualLess<int> > >(200, 30, nthreads, iters, seed, ov);
+    case 22: return set_case<amc::SmallSet<int, 4, DualLess<int> >, false>(12, 30, nthreads, iters, seed, ov);
+    case 23: return set_case<SSfd, true>(4, 30, nthreads, iters, seed, ov);
+    case 24: return set_case<SSfd, true>(10, 30, nthreads, iters, seed, ov);
     case 0: return vec_case<amc::vector<int> >(0, 30, nthreads, iters, seed, ov);
     case 1: return vec_case<amc::vector<int> >(12, 30, nthreads, iters, seed, ov);
     case 2: return vec_case<amc::vector<TRs> >(9, 30, nthreads, iters, seed, ov);
